@@ -39,6 +39,8 @@ Inductive err :=
 | EInvalidPayload           (* mux: first child of an IQ is not an element *)
 | EEncode                   (* the encoder rejected a token *)
 | EHandler                  (* an error value of the handler's own *)
+| EWrapEOF                  (* an error value that wraps io.EOF, or claims to be it (errors.Is), but is not io.EOF itself *)
+| EOutClosed                (* xmpp.ErrOutputStreamClosed: a write after the output stream was closed *)
 | EOther                    (* any other error value *)
 | EPoison                   (* model only: P was read again after it returned an error *)
 | EFuel.                    (* model only: out of fuel *)
@@ -48,7 +50,8 @@ Definition err_eqb (a b : err) : bool :=
   | EEOF, EEOF | EUnexpectedEOF, EUnexpectedEOF | ERestart, ERestart | EUnknownElem, EUnknownElem
   | EProcInst, EProcInst | EComment, EComment | EDirective, EDirective | EChardata, EChardata
   | EDecode, EDecode | EBadState, EBadState | EJid, EJid | EInvalidPayload, EInvalidPayload
-  | EEncode, EEncode | EHandler, EHandler | EOther, EOther | EPoison, EPoison | EFuel, EFuel => true
+  | EEncode, EEncode | EHandler, EHandler | EOther, EOther | EPoison, EPoison | EFuel, EFuel
+  | EWrapEOF, EWrapEOF | EOutClosed, EOutClosed => true
   | EStreamErr x, EStreamErr y => bytes_eqb x y
   | _, _ => false
   end.
@@ -319,7 +322,8 @@ Record cfg := mkcfg {
   c_ws : bool;                       (* websocket framing *)
   c_ns : bytes;                      (* content name space of the input stream *)
   c_own : bytes;                     (* LocalAddr().Bare().String() *)
-  c_jp : bytes -> option bytes       (* jid.Parse(s) then String(): None = error *)
+  c_jp : bytes -> option bytes;      (* jid.Parse(s) then String(): None = error *)
+  c_oclosed : bool                   (* the output stream was closed (a local Close()) before Serve runs *)
 }.
 
 Definition mk_attr (l v : bytes) : attr := mkattr (mkname [] l) v.
@@ -369,6 +373,11 @@ Definition finish_inv (c : cfg) (fuel : nat) (n : name) (a' : list attr) (id typ
       match to with
       | None => (HRInv (mkinv n a' seen (w_out w) [] (Some EJid)), r_p s2)
       | Some j =>
+          (* with the output closed the default reply cannot be written, and the
+             flush fails once the handler has asked for the writer *)
+          if c_oclosed c && (want || negb (is_nil (w_out w)))
+          then (HRInv (mkinv n a' seen (w_out w) [] (Some EOutClosed)), r_p s2)
+          else
           let auto := if want then default_reply id j else [] in
           let '(e, s3) := drain (c_ws c) fuel s2 in
           (HRInv (mkinv n a' seen (w_out w) auto e), r_p s3)
@@ -400,13 +409,10 @@ Record sres := mksres {
   s_rest : pst             (* input left unread *)
 }.
 
-(* sendError: a stream error is written and returned as such, except that one
-   without a condition cannot be encoded *)
-Definition send_error (e : err) : err :=
-  match e with
-  | EStreamErr c => if is_nil c then EEncode else e
-  | _ => e
-  end.
+(* sendError: whatever it puts on the wire (the stream error itself, undefined-
+   condition for any other error or for a stream error without a condition,
+   nothing when the output is already closed), it returns the error it was given *)
+Definition send_error (e : err) : err := e.
 
 Fixpoint serve (c : cfg) (fuel : nat) (hf : nat -> handlers) (idx : nat) (p : pst) : sres :=
   match fuel with
@@ -623,7 +629,8 @@ Fixpoint divs_of (evs : list event) : list dinv :=
 
 Definition written_p (r : sres_p) : list token := flat_map (fun v => v_hw v ++ v_auto v) (invs_of (sp_events r)).
 
-(* everything written to the session's token writer during Serve *)
+(* everything written to the session's token writer during Serve ([v_hw] is what
+   the handler asked to write; with the output closed none of it goes out) *)
 Definition written (r : sres) : list token := flat_map (fun v => v_hw v ++ v_auto v) (s_invs r).
 
 (* ---- specification-side vocabulary (used by the theorems, not by the model) ---- *)
